@@ -369,7 +369,9 @@ func formatYear(t time.Time, marker *variableMarker) (string, error) {
 	}
 
 	y := t.Year()
-	if size > 0 {
+	if size > 0 && size < 10 {
+		// A year has fewer than 10 digits, so wider sizes
+		// leave it unchanged (and 10^size must not overflow).
 		y = y % pow10(size)
 	}
 
